@@ -226,6 +226,116 @@ def vmsa_ld_task(task):
     return out
 
 
+# ---------------------------------------------------------------------------------------------------------------------
+# stage 2 (Virtualization Extensions): Non-secure PL1&0 with HCR.VM = 1.  Stage-2 tables: first lookup table at 0x8000
+# (level 1 with VTCR.SL0 = 1, concatenated level-2 tables with SL0 = 0), two further level-2 tables at 0xA000 / 0xB000,
+# four level-3 tables at 0xC000...  Stage 1 is off (flat, HCR.DC both ways) or a short-descriptor table at 0x4000 whose own
+# descriptor addresses are intermediate physical addresses as well.
+S2CFG = dict(arch_version=7, memory_system_architecture='VMSA', memory_list=MEM, have_lpae=True, have_virt_ext=True,
+             have_security_ext=True)
+
+
+def s2_desc(rnd, level, ident):
+    r = rnd.random()
+    memattr = rnd.choice([0xF, 0xF, 0xF, 0x5, 0xA, 0x7, 0xD, 0x0, 0x1, 0x4, 0x2, rnd.randrange(16)])
+    hap = rnd.choice([3, 3, 3, 1, 2, 0])
+    af = 0 if rnd.random() < 0.06 else 1
+    lower = (af << 10) | (rnd.getrandbits(2) << 8) | (hap << 6) | (memattr << 2)
+    upper = rnd.getrandbits(1) << 54
+    if r < 0.08:
+        return rnd.getrandbits(63) << 1                                            # invalid
+    if level < 3 and r < 0.45:
+        nxt = (0xA000 + rnd.randrange(2) * 0x1000) if level == 1 else (0xC000 + rnd.randrange(4) * 0x1000)
+        ext = (rnd.randrange(1, 4) << 32) if rnd.random() < 0.03 else 0
+        return (rnd.getrandbits(5) << 59 if rnd.random() < 0.2 else 0) | ext | nxt | 3     # table (upper attribute bits are ignored at stage 2)
+    ext = (rnd.randrange(1, 256) << 32) if rnd.random() < 0.08 else 0
+    if level == 3:
+        oa = ident if rnd.random() < 0.6 else rnd.choice([0, 0x1000, 0x4000, 0xC000, rnd.getrandbits(32)])
+        if r < 0.5:
+            return upper | (oa & 0xFFFFF000) | lower | 1                            # reserved at level 3: invalid
+        return upper | ext | (oa & 0xFFFFF000) | lower | 3                          # page
+    lsb = 30 if level == 1 else 21
+    oa = ident if rnd.random() < 0.7 else rnd.choice([0, 0x40000000, 0x00200000, rnd.getrandbits(32)])
+    return upper | ext | (oa & ~((1 << lsb) - 1) & 0xFFFFFFFF) | lower | 1          # block
+
+
+def vmsa_s2_task(task):
+    rnd = random.Random(task['seed'])
+    proto = S.mk_group(dict(task, cfg=S2CFG))
+    out = []
+    for t in range(task['tables']):
+        g = C.Group.__new__(C.Group)
+        g.__dict__.update(proto.__dict__)
+        g.name = '%s-t%d' % (task['name'], t)
+        g.events, g.meta = [], {}
+        st = proto.fresh()
+        C.randomize(st, rnd, mode=rnd.choice([16, 19, 31, 17, 18]), thumb=False, pc=0x40)
+        ee, hee = (rnd.getrandbits(1) if rnd.random() < 0.3 else 0), (rnd.getrandbits(1) if rnd.random() < 0.3 else 0)
+        s1 = rnd.choice(['off', 'off', 'off', 'sd'])
+        sct = (C.unlimbs(g.base['sys']['SCTLR']) & ~((1 << 25) | (1 << 29) | (1 << 28) | 1 | 2)) | (1 << 22)
+        st['sys']['SCTLR'] = limbs(sct | (ee << 25) | (1 << 28) | (1 if s1 == 'sd' else 0))
+        st['sys']['HSCTLR'] = limbs(hee << 25)
+        st['sys']['SCR'] = limbs(1 | (rnd.getrandbits(3) << 1))                                   # Non-secure
+        vm = 0 if rnd.random() < 0.08 else 1
+        dc = rnd.getrandbits(1) if s1 == 'off' else 0
+        st['sys']['HCR'] = limbs(vm | (rnd.getrandbits(1) << 2) | (dc << 12))                    # VM, PTW, DC (TGE = 0)
+        sl0 = rnd.choice([1, 1, 0])
+        t0 = rnd.choice([0, 0, -8, 1, -2, -4]) if sl0 == 1 else rnd.choice([0, 0, 2, 4, 7, -1])
+        if rnd.random() < 0.04:
+            sl0, t0 = rnd.choice([(2, 0), (3, 0), (0, -5), (1, 4)])                                 # UNPREDICTABLE programmings
+        st['sys']['VTCR'] = limbs((1 << 31) | (rnd.getrandbits(6) << 8) | (sl0 << 6) | ((1 if t0 < 0 else 0) << 4) | (t0 & 0xF))
+        st['sys']['VTTBR'], st['sys']['VTTBRH'] = limbs(0x8000 | (rnd.getrandbits(2) << 3 if rnd.random() < 0.05 else 0)), \
+            limbs(rnd.randrange(1, 4) if rnd.random() < 0.03 else 0)
+        st['sys']['TTBCR'] = limbs(0)
+        st['sys']['TTBR0'], st['sys']['TTBR0H'] = limbs(0x4000), limbs(0)
+        st['sys']['DACR'] = limbs(sum(rnd.choice([1, 1, 3, 3, 0]) << (2 * d) for d in range(16)))
+        st['sys']['PRRR'] = limbs(sum(rnd.choice([0, 1, 2, 2, 2]) << (2 * i) for i in range(8)) | (rnd.getrandbits(16) << 16))
+        st['sys']['NMRR'] = limbs(rnd.getrandbits(32))
+        st['sys']['FCSEIDR'] = limbs(0)
+        st['sys']['DFSR'] = limbs(0)
+        d1, d2, d3 = st['mem']['base'][1], st['mem']['base'][2], st['mem']['base'][3]
+        first_level = 2 - sl0 if sl0 < 2 else 1
+        span = 30 if first_level == 1 else 21
+        for off in range(0, 0x2000, 8):                           # the first lookup table(s); entry i covers IPA i << span
+            put64(d2, off, s2_desc(rnd, first_level, ((off // 8) << span) & 0xFFFFFFFF), hee)
+        for k in range(2):                                        # level-2 tables (reached from level 1)
+            for off in range(0, 0x1000, 8):
+                put64(d2, 0x2000 + k * 0x1000 + off, s2_desc(rnd, 2, ((off // 8) << 21) & 0xFFFFFFFF), hee)
+        for k in range(4):
+            for off in range(0, 0x1000, 8):
+                put64(d3, k * 0x1000 + off, s2_desc(rnd, 3, ((off // 8) << 12) & 0xFFFFFFFF), hee)
+        hot = [0, 0x40, 0x4000, 0x8000, 0xC000, 0x1000, 0x200000, 0x40000000]
+        if s1 == 'sd':
+            for _ in range(60):
+                i = rnd.randrange(4096)
+                put32(d1, 4 * i, l1_desc(rnd), ee)
+                hot.append(i << 20)
+        C.M.inject(g.arm, dict(st, osys={}, memsz=[]))
+        g.base = C.M.project(g.arm)
+        out.append(g)
+        for _ in range(task['per_table']):
+            r = rnd.random()
+            if r < 0.55:
+                va = (rnd.choice(hot) + rnd.choice([0, 0, 4, 0xFFF, 0x1000, rnd.getrandbits(12), rnd.getrandbits(21)])) & 0xFFFFFFFF
+            elif r < 0.75:
+                va = rnd.getrandbits(rnd.choice([12, 16, 21, 30, 32]))
+            else:
+                edge = (1 << (32 - t0)) if 0 < t0 < 8 else 0
+                va = (edge + rnd.choice([-1, 0, 1, -0x1000])) & 0xFFFFFFFF
+            k = rnd.random()
+            if k < 0.7:
+                act = {'n': 'Translate', 'addr': limbs(va), 'size': rnd.choice([1, 2, 4]), 'priv': bool(rnd.getrandbits(1)),
+                       'iswrite': bool(rnd.getrandbits(1)), 'aligned': rnd.random() < 0.85}
+            else:
+                size = rnd.choice([1, 2, 4])
+                op = rnd.choice(['MemAGet', 'MemUGet', 'MemASet', 'MemUSet'])
+                act = {'n': op, 'addr': limbs(va & ~(size - 1)), 'size': size}
+                if op.endswith('Set'):
+                    act['val'] = [rnd.getrandbits(8) for _ in range(size)]
+            g.add(st, act, meta={'va': va, 's2': True, 's1': s1, 'sl0': sl0, 't0sz': t0, 'vm': vm})
+    return out
+
+
 def lpae_scenarios(ctx, scen):
     """spec -> code: every scenario MC_LPAE printed (walk shape x APTable at both levels x AP x AF x T0SZ x priv x R/W)
     is built on a real LPAE-configured instance from the printed registers and descriptor bytes; translate_address() is
@@ -275,6 +385,7 @@ def run(ctx):
     lp = lpae_scenarios(ctx, scen)
     tasks = [(vmsa_task, dict(name='vmsa-%d' % i, seed=ctx.seed + i, tables=6 if q else 120, per_table=40)) for i in range(16)]
     tasks += [(vmsa_ld_task, dict(name='lpae-%d' % i, seed=ctx.seed + 50 + i, tables=3 if q else 60, per_table=50)) for i in range(16)]
+    tasks += [(vmsa_s2_task, dict(name='s2-%d' % i, seed=ctx.seed + 80 + i, tables=3 if q else 60, per_table=50)) for i in range(16)]
     groups = C.parallel(_dispatch, tasks) + [lp.data()]
     res = C.judge_groups(ctx, groups, clause_filter, rnd=rnd, chunk=1500,
                          site_of=lambda e, v: e['act']['n'] if e['act']['n'] != 'Step' else (e.get('cls') or v['path']),
